@@ -5,7 +5,12 @@ from ..core import modules_for
 
 def run(ctx):
     q = ctx.tier == "quick"
+    if not getattr(ctx, "replay", None):
+        from .. import g72x as _g72x
+        _g72x.pregen(ctx)
     run_common(ctx, "C05", modules_for("C05"), l1_scripts=400 if q else 4000, stride=3 if q else 1, nops=25 if q else 60)
     if not getattr(ctx, "replay", None):
         from .. import nms
         nms.run(ctx, "C05", 80 if q else 800)
+        from .. import g72x
+        g72x.run(ctx, "C05", 120 if q else 1200)
